@@ -159,9 +159,51 @@ def tables(ctx, R="R-C11-dispatch-tables"):
             raise AnalysisError("%s: cannot read suffix alternatives out of %r" % (R, pat))
         return alts, pre, anchored
 
+    # the inference as a decision list read off the forward-substituted returns (however the chain is spelt: elif chain with
+    # one return, early returns, a loop over a literal tuple of suffixes); the syntactic walk below is the fall-back
+    semantic_ok = False
+    try:
+        from ..symeval import SymEval as _SE
+        evg_ = _SE(prog, g).run()
+        entries = []
+        for g_, v_, _n in evg_.returns:
+            if any(isinstance(x, S.E) and x.op == "cond" for x in S.walk(v_)):
+                for tests, leaf in cc.strip_cond(v_):
+                    entries.append(([t for l, t in tests if l == "T"], leaf))
+            else:
+                conj = list(g_.args) if g_.op == "and" else [g_]
+                entries.append(([c for c in conj if not (c.op == "not" or (c.op == "cmp" and c.args[0] in ("not in", "!=", "is not")))], v_))
+
+        def lit(e):
+            if e.is_const and isinstance(e.value, str):
+                return e.value
+            if e.op == "add" and all(a.is_const and isinstance(a.value, str) for a in e.args):
+                return "".join(a.value for a in e.args)
+            return None
+        sp, sr, okx = {}, set(), bool(entries)
+        for pos, leaf in entries:
+            if len(pos) != 1:
+                okx = False
+                break
+            a = pos[0]
+            lv = lit(leaf)
+            if a.op == "call" and a.args[0] == ".endswith" and len(a.args) == 3 and lit(a.args[2]) is not None and lv is not None:
+                sp[lit(a.args[2])] = lv
+                sr.add(lv)
+            elif a.op == "call" and str(a.args[0]) in ("re.match", "re.search", "re.fullmatch") and lv is not None:
+                sr.add(lv)
+            elif a.op == "cmp" and a.args[0] == "in" and "SOUNDFILE_SUPPORTED_FILE_TYPES" in S.show(a.args[2]):
+                sr.add("<soundfile type>")
+            else:
+                okx = False
+                break
+        if okx:
+            pairs, rets, semantic_ok = sp, sr, True
+    except Exception:
+        semantic_ok = False
     chain = [n for n in g.node.body if isinstance(n, ast.If)]
-    ctx.need(len(chain) >= 1, R, "decision chain not found in the suffix inference")
-    cur = chain[0]
+    ctx.need(semantic_ok or len(chain) >= 1, R, "decision chain not found in the suffix inference")
+    cur = chain[0] if not semantic_ok else None
     while cur is not None:
         t = cur.test
         asg = [x for x in cur.body if isinstance(x, ast.Assign) and astq.is_name(x.targets[0], "force_as")] or \
@@ -402,7 +444,7 @@ def readers(ctx, R="R-C11-readers"):
                 sub[astq.text(nn.test).replace(" ", "")] = astq.text(nn.body[0].value)
     ctx.check(sub.get("sf.subtype=='FLOAT'") == "np.float32" and sub.get("sf.subtype=='DOUBLE'") == "np.float64" and
               any("PCM_32" in k and v == "np.int32" for k, v in sub.items()), R, f, f.node,
-              "FLOAT/DOUBLE/PCM_32 subtypes decode to float32/float64/int32 (PCM_16 and the rest to int16)", "subtype table is %s" % sub)
+              "FLOAT/DOUBLE/PCM_32 subtypes decode to float32/float64/int32 (PCM_16 and the rest to int16)", "subtype table is %s" % sub, structural=True)
     # keyed containers
     f, ev, val = _reader_value(prog, "_numpy_archive_read_signal")
     s = S.show(val)
@@ -450,15 +492,25 @@ def wds(ctx, R="R-C11-wds"):
 
 
 def wave_shape(ctx, R="R-C11-wave-shape"):
+    """The wave reader's expression-level clauses name the spelling of the pinned source; a reader that is spelt differently is
+    "cannot decide" for them (structural).  Closing is decided on the statement kind: try/finally with close(), or a with block."""
     prog = ctx.prog
     f = prog.func("util._wave_read_signal")
     txt = astq.text(f.node).replace(" ", "")
-    ctx.check("dtype_in='<i{}'.format(wave_file.getsampwidth())" in txt, R, f, f.node, "samples are little-endian signed integers of the file's sample width")
-    ctx.check("np.frombuffer(wave_file.readframes(wave_file.getnframes()),dtype=dtype_in)" in txt, R, f, f.node, "all frames are read and reinterpreted, not converted")
-    ctx.check("data.reshape((n_data_points//n_channels,n_channels),order='C')" in txt, R, f, f.node, "multi-channel data is reshaped (frames, channels) in C order")
-    ctx.check("ifn_channels>1:" in txt, R, f, f.node, "mono data stays 1-D")
+    ctx.check("dtype_in='<i{}'.format(wave_file.getsampwidth())" in txt, R, f, f.node, "samples are little-endian signed integers of the file's sample width", structural=True)
+    ctx.check("np.frombuffer(wave_file.readframes(wave_file.getnframes()),dtype=dtype_in)" in txt, R, f, f.node, "all frames are read and reinterpreted, not converted", structural=True)
+    ctx.check("data.reshape((n_data_points//n_channels,n_channels),order='C')" in txt, R, f, f.node, "multi-channel data is reshaped (frames, channels) in C order", structural=True)
+    ctx.check("ifn_channels>1:" in txt or "if1<n_channels:" in txt, R, f, f.node, "mono data stays 1-D", structural=True)
     fin = [t for t in f.body_nodes() if isinstance(t, ast.Try)]
-    ctx.check(len(fin) == 1 and fin[0].finalbody and "wave_file.close()" in astq.text(fin[0].finalbody[0]), R, f, f.node, "the wave file is closed on every path")
+    closes_finally = len(fin) == 1 and bool(fin[0].finalbody) and any(astq.attr_call(c, "close") for st in fin[0].finalbody for c in ast.walk(st) if isinstance(c, ast.Call))
+    withs = [w for w in f.body_nodes() if isinstance(w, ast.With) and any(
+        isinstance(it.context_expr, ast.Call) and (prog.qualify(f.module, it.context_expr.func, f) or "").endswith("wave.open") for it in w.items)]
+    opens = [c for c in astq.func_calls(f) if (prog.qualify(f.module, c.func, f) or "").endswith("wave.open")]
+    if not opens:
+        ctx.error(R, "cannot decide whether the wave file is closed: wave.open not found in _wave_read_signal")
+    else:
+        ctx.check(closes_finally or len(withs) == len(opens), R, f, opens[0], "the wave file is closed on every path",
+                  "the file opened by wave.open is neither managed by a with block nor closed in a finally clause")
 
 
 def sphere_container(ctx):
